@@ -7,9 +7,15 @@ from harness import core, pipe, pipecheck, pipeprops
 from harness.core import Failure, Result
 
 MANIFEST = dict(
-    pending="check runs (model lock-step + oracle) but its Coq theorems are still being proved; not claimed until coq/Props holds them",
     design_ref="DESIGN.md §6 C03",
-    text="Pipeline model in lock-step against the real observer on the real kernel (see C01); completeness: in "
+    text="Coq theorems (coq/Props/C03.v): per-operation COMPLETENESS - for every configuration, world and covered state, "
+         "kernel_op + read_batch + grouping + emit deliver exactly the contract (up to adjacent duplicates) for touch, write, "
+         "chmod (file, directory), unlink, mkdir, rmdir, file renames (inside/in/out/replacing) and directory renames onto a free "
+         "name incl. synthetic events in walk order (C03_contract_*), tied to the pipeline LTS (C03_pipeline_tie); SHAPE laws of "
+         "emit for every item (C03_flavour, C03_synthetic_only_descendants via C14, C03_moved_pair_paths/_cookie, "
+         "C03_parent_modified); the unrestricted history-level soundness is REFUTED on the model (C03_sound_refuted_phantom = "
+         "known finding F10); directory-replaces-directory stays a stated Definition. "
+         "Pipeline model in lock-step against the real observer on the real kernel (see C01); completeness: in "
          "one-at-a-time histories the events delivered for each operation must equal the per-operation contract written "
          "from the property text; soundness: in arbitrary (also unpaced) histories every delivered event must be explained "
          "by an operation of the history (path in scope, kind, moved src/dst of one entry, synthetic only for descendants); "
